@@ -48,10 +48,11 @@ def config_variants():
     for c in list(CHECKS.values()):
         if c.misuse or c.config != 'debug' or '@' in c.id: continue
         if not ({'C01', 'C02', 'C19'} & set(c.props)): continue
+        if c.stubs or c.bounded: continue      # engine-A contracts only (view algebra, iterators); skeleton / bounded checks have their own assertions as obligations
         for cfg, tag in (('ndebug', 'ndebug'), ('assert_disable', 'nassert')):
             quick = c.id.startswith(('S2_', 'I2_', 'E2_', 'L2_'))
             Check(c.id + '@' + tag, ['C20'], c.group, c.params, None, fn=c.fn, fn_re=c.fn_re, cxx=c.cxx, ghosts=c.ghosts, requires=c.requires, lemmas=c.lemmas,
-                  ensures=c.ensures, assigns=c.assigns, mode=c.mode, setup=c.setup, tier='quick' if quick else 'thorough', config=cfg,
+                  ensures=c.ensures, assigns=c.assigns, mode=c.mode, setup=c.setup, tier='quick' if quick else 'thorough', config=cfg, solvers=c.solvers, timeout=c.timeout, unwind=c.unwind, objbits=c.objbits, cbmc_flags=c.cbmc_flags,
                   note='same contract, build configuration ' + cfg)
 
 import vf as _vf
